@@ -18,7 +18,7 @@ type neighbour struct {
 	Name   string
 	Prep   [][]byte // delivered one by one, the neighbour must be parked after each
 	Finish []byte
-	Want   string // kinds of the reply to Finish ("*Z": anything ending in ReadyForQuery)
+	Want   string // kinds of the reply to Finish ("*Z": anything without an error ending in ReadyForQuery; "~Z": anything ending in ReadyForQuery)
 }
 
 func neighbourStates() []neighbour {
@@ -54,6 +54,9 @@ func finishNeighbour(res *explore.Result, c *harness.Conn, nb neighbour, what st
 	ok := k == nb.Want
 	if nb.Want == "*Z" {
 		ok = strings.HasSuffix(k, "Z") && !strings.Contains(k, "E")
+	}
+	if nb.Want == "~Z" { // anything that ends with ReadyForQuery (errors included)
+		ok = strings.HasSuffix(k, "Z") && !strings.HasSuffix(k, "!")
 	}
 	if !ok {
 		res.Fail("neighbour-disturbed", fmt.Sprintf("%s: the neighbouring connection (%s) answered its completion with %q, expected %q", what, nb.Name, k, nb.Want))
